@@ -37,9 +37,7 @@ def random_config(rng, allow_op_col=False):
     if rng.random() < 0.3:
         opts['transaction_column_name'] = 'tx_id'
         opts['end_transaction_column_name'] = 'end_tx_id'
-    if allow_op_col and rng.random() < 0.3:
-        # only for the parsed-program obligations: the object-based path does not honour a custom
-        # operation-type column name (open finding F-OPCOL)
+    if rng.random() < 0.25:
         opts['operation_type_column_name'] = 'op_type'
     if rng.random() < 0.2:
         opts['table_name'] = '%s_history'
